@@ -6,6 +6,10 @@
     HARNESS-side pre-order walk that stops below metadata elements; fail-fast must raise
     exactly what the first failing node raises; editing anything below a metadata element
     (keeping whether it has 0, 1 or more children) must not change the outcome;
+(H) statelessness (an assumption of the theorems: the model is a pure function of the tree): the SAME tree
+    object is validated repeatedly - collect, collect again, fail-fast, into a list that already holds another
+    node's entries, after in-place edits and after undoing them - and every result must equal the result on a
+    freshly built identical tree;
 (B) model-vs-implementation correspondence on whole trees (<= 40 nodes) inside Coq."""
 import copy
 
@@ -155,6 +159,13 @@ def run(ctx):
             ctx.fail("C05:modes", "validate.tree succeeded in one mode and not in the other", dict(rep, observed_ff=got[0], observed=got[1]))
         ctx.sample({"size": VT.size(t), "edits": ops, "failing_visible_nodes": n_fail, "metadata_elements": len(mds),
                     "ff": got[0][0], "codes": [e[0] for e in got[1]][:6]}, limit=6)
+        # history: the same tree object validated repeatedly (collect, collect again, fail-fast, into a non-empty
+        # list, after in-place edits and after undoing them) must give what a freshly built identical tree gives
+        for call in ("tree", "node"):
+            for step, what, details in VT.history_problems(rng, t, call=call, n_edits=1 if VT.size(t) > 40 else 2):
+                ctx.fail("C05:history:" + call + ":" + step.split("/")[-1], what, details)
+            ctx.case()
+            ctx.count("history_sequences")
         # opacity: edit below metadata
         if mds:
             t2, changed = edit_below_metadata(rng, t)
@@ -199,6 +210,19 @@ def replay(ctx, data):
     if r.get("kind") != "impl-vs-statement" or "tree" not in r:
         print(json.dumps(data, indent=1)[:4000])
         return run(ctx)
+    if "history" in r:
+        import random
+        call = r.get("call", "validate.tree").split(".")[-1]
+        found = []
+        for k in range(20):
+            found = VT.history_problems(random.Random(k), r["tree"], call=call)
+            if found:
+                break
+        print(f"history replay of validate.{call}: {'still differs: ' + found[0][1] if found else 'same objects and fresh tree agree'}")
+        ctx.case()
+        for step, what, details in found[:1]:
+            ctx.fail(data.get("key", "C05:history"), what, details)
+        return
     got, exp, n_fail = tree_vs_nodes(r["tree"])
     print(f"validate.tree: ff={got[0]} entries={len(got[1])}; per-node concatenation: ff={exp[0]} entries={len(exp[1])}; failing visible nodes={n_fail}")
     ctx.case()
